@@ -129,6 +129,13 @@ structure PrintsParseBack (N : Net Addr Prefix) : Prop where
   back : ∀ a, N.parseAddr (N.toString a) = some a
   emptyInvalid : N.parseAddr [] = none
 
+/-- the address the wrapper's policy function parses out of the connection's remote address
+    (as the code does it: the zone is NOT cut) -/
+def ppPeerAddr (N : Net Addr Prefix) (peer : Bytes) : Option Addr :=
+  match splitHostPort peer with
+  | some hp => N.parseAddr hp.1
+  | none => none
+
 /-- a forwarding field that IS sent, with exactly one value -/
 def Sent (x : Option (Option (List Bytes))) : Prop := ∃ v, x = some (some [v])
 
